@@ -23,5 +23,6 @@ func main() {
 		{Name: "rb-retention-3pg-4ops-exhaustive", Cfg: "MC_DBFile_retain.cfg", Timeout: 10 * time.Minute, MaxKeep: core.Pick(args, 800, 6000)},
 		{Name: "wal-3pg-3ops-exhaustive", Cfg: "MC_DBFile_wal_small.cfg", Timeout: 15 * time.Minute, MaxKeep: core.Pick(args, 600, 4000)},
 		{Name: "rb-drop-recreate-3pg-4ops-exhaustive", Cfg: "MC_DBFile_drop.cfg", Timeout: 10 * time.Minute, MaxKeep: core.Pick(args, 300, 0)},
+		{Name: "deep-simulation-4pg-8ops", Cfg: "MC_DBFile_sim.cfg", Simulate: true, Num: core.Pick(args, 40, 400), Depth: 200, Timeout: 10 * time.Minute, MaxKeep: core.Pick(args, 150, 3000)},
 	})
 }
